@@ -47,13 +47,24 @@ LEVEL = "exploration"
 PROPS = (0.3, 0.5)
 TOL = dict(rtol=1e-9, atol=1e-12)
 TOL_EV = dict(rtol=1e-6, atol=1e-8)
-TOL_EV_ITER = dict(rtol=2e-5, atol=2e-5)     # N >= 21: see measure_table
+
+
+def _tol_ev_iter(n, W):
+    """N >= 21 (see measure_table, flag simple_ev): the library shifts by
+    sigma = N^2 (W^2 for the n.s.i. variant), so the accuracy ARPACK reaches
+    with tol=1e-8 degrades like sigma; calibrated against dense eigh
+    (3e-6 at N=21, 2e-5 at 150, 5e-4 at 300 ~ 5e-9*N^2)."""
+    t = 4e-8 * max(float(n), float(W)) ** 2
+    return dict(rtol=t, atol=t)
+
+
 JITTER = 1e-11
 
 
 def _tol(m, n, w):
     if m.has("simple_ev"):
-        return TOL_EV if n <= 20 else TOL_EV_ITER
+        return TOL_EV if n <= 20 else _tol_ev_iter(
+            n, sum(w) if w is not None else n)
     if m.has("cancel"):
         W = float(sum(w)) if w is not None else float(n)
         return dict(rtol=1e-9, atol=1e-12 * max(1.0, W ** 3))
@@ -721,7 +732,7 @@ def _scale_split_nodes(n, A):
 
 
 def fam_scale(case):
-    name, what = case
+    name, what = case[:2]
     n, directed, A, w, W = _scale_input(name)
     if what == "cross":
         ev = list(range(0, n, 2))
@@ -739,8 +750,10 @@ def fam_scale(case):
     if n < 100:
         seqs.append([(nodes[1], 0.3), (n, 0.5)])       # split the twin again
         seqs.append([(n - 1, 0.5), (0, 0.3)])
+    heavy_ok = len(case) > 2 and case[2] == "all" and n < 250
     return _split_engine(n, directed, A, w, W, seqs,
-                         skip=SCALE_SKIP_BIG if n >= 100 else ())
+                         skip=SCALE_SKIP_BIG if n >= 100 and not heavy_ok
+                         else ())
 
 
 FAMILIES = {"split": fam_split, "iter": fam_split, "cross": fam_cross,
@@ -803,9 +816,9 @@ def run(ctx):
                 cases.append((n, m, wi, (not thorough) and n == 5))
     ctx.explore("cross", cases, desc="InteractingNetworks nsi_cross_* / "
                 "nsi_internal_* under node splitting")
-    names = mt.SCALE_MID + (mt.SCALE_MID_THOROUGH if thorough else []) + \
+    names = mt.SCALE_MID + mt.SCALE_MID_THOROUGH + \
         mt.SCALE_BIG + (mt.SCALE_BIG_THOROUGH if thorough else [])
-    cases = [(nm, "split") for nm in names]
+    cases = [(nm, "split", "all" if thorough else "cheap") for nm in names]
     cases += [(nm, "cross") for nm in names
               if not mt.scale_graph(nm)[2] and 16 <= mt.scale_graph(nm)[0]
               < 100]
